@@ -588,6 +588,77 @@ def canonical_none_tests(tree: ast.Module) -> int:
             return node
 
     A().visit(tree)
+
+    # --- a temporary that is bound and consumed by the very next statement, as that statement's whole value, is the value:
+    #     t = f(x); a, b = t   ->   a, b = f(x)          r = e; return r   ->   return e
+    # (the name is assigned once and read once in the function, so nothing else can observe it; adjacent, so no evaluation
+    #  is reordered)
+    def fold_block(stmts, uses):
+        out = []
+        i = 0
+        while i < len(stmts):
+            st = stmts[i]
+            nxt = stmts[i + 1] if i + 1 < len(stmts) else None
+            if (isinstance(st, ast.Assign) and len(st.targets) == 1 and isinstance(st.targets[0], ast.Name) and nxt is not None
+                    and uses.get(st.targets[0].id) in ((1, 1), "pairs")
+                    and isinstance(nxt, (ast.Assign, ast.Return)) and isinstance(nxt.value, ast.Name) and nxt.value.id == st.targets[0].id
+                    and (isinstance(nxt, ast.Return) or (len(nxt.targets) == 1 and isinstance(nxt.targets[0], (ast.Tuple, ast.List)) and isinstance(st.value, ast.Call)))):
+                nxt.value = st.value
+                count[0] += 1
+                out.append(nxt)
+                i += 2
+                continue
+            for fld in ("body", "orelse", "finalbody"):
+                sub = getattr(st, fld, None)
+                if isinstance(sub, list) and sub and isinstance(sub[0], ast.stmt) and not isinstance(st, (ast.FunctionDef, ast.AsyncFunctionDef, ast.ClassDef)):
+                    setattr(st, fld, fold_block(sub, uses))
+            if isinstance(st, ast.Try):
+                for h in st.handlers:
+                    h.body = fold_block(h.body, uses)
+            out.append(st)
+            i += 1
+        return out
+
+    for fn in [n for n in ast.walk(tree) if isinstance(n, (ast.FunctionDef, ast.AsyncFunctionDef))]:
+        uses = {}
+        nested_names = set()
+        for x in ast.walk(fn):
+            if isinstance(x, (ast.FunctionDef, ast.AsyncFunctionDef, ast.Lambda)) and x is not fn:
+                nested_names |= {y.id for y in ast.walk(x) if isinstance(y, ast.Name)}
+        for x in ast.walk(fn):
+            if isinstance(x, ast.Name):
+                s_, l_ = uses.get(x.id, (0, 0))
+                uses[x.id] = (s_ + 1, l_) if isinstance(x.ctx, (ast.Store, ast.Del)) else (s_, l_ + 1)
+            elif isinstance(x, (ast.Global, ast.Nonlocal)):
+                nested_names |= set(x.names)
+        params = {a.arg for a in fn.args.args + fn.args.kwonlyargs + fn.args.posonlyargs}
+        # a temporary re-used for several such pairs (`_ret = e1; return _ret ... _ret = e2; return _ret`): every read
+        # directly follows its own binding, so each pair folds on its own
+        pair_count = {}
+
+        def count_pairs(stmts):
+            for i_, st_ in enumerate(stmts):
+                nx_ = stmts[i_ + 1] if i_ + 1 < len(stmts) else None
+                if isinstance(st_, ast.Assign) and len(st_.targets) == 1 and isinstance(st_.targets[0], ast.Name) and isinstance(nx_, (ast.Assign, ast.Return)) \
+                        and isinstance(nx_.value, ast.Name) and nx_.value.id == st_.targets[0].id \
+                        and not any(isinstance(y, ast.Name) and y.id == st_.targets[0].id for y in ast.walk(st_.value)):
+                    pair_count[st_.targets[0].id] = pair_count.get(st_.targets[0].id, 0) + 1
+                for fld_ in ("body", "orelse", "finalbody"):
+                    sub_ = getattr(st_, fld_, None)
+                    if isinstance(sub_, list) and sub_ and isinstance(sub_[0], ast.stmt) and not isinstance(st_, (ast.FunctionDef, ast.AsyncFunctionDef, ast.ClassDef)):
+                        count_pairs(sub_)
+                if isinstance(st_, ast.Try):
+                    for h_ in st_.handlers:
+                        count_pairs(h_.body)
+
+        count_pairs(fn.body)
+        for nm_, k_ in pair_count.items():
+            if uses.get(nm_) == (k_, k_) and k_ > 1:
+                uses[nm_] = "pairs"
+        for nm_ in list(uses):
+            if nm_ in nested_names or nm_ in params:
+                uses[nm_] = (9, 9)
+        fn.body = fold_block(fn.body, uses)
     if count[0]:
         ast.fix_missing_locations(tree)
     return count[0]
